@@ -348,6 +348,12 @@ func baseTrees() []fsmodel.Tree {
 	trees = append(trees, fsmodel.Tree{{Path: "x", Kind: fsmodel.Dir, Perm: 0755, Mtime: T + 1, Xattrs: map[string]string{"user.a": "dir"}},
 		{Path: "x/f", Kind: fsmodel.File, Perm: 0644, Mtime: T + 2, Data: fsmodel.Content(51, 6), Xattrs: map[string]string{"user.b": "file", "user.c": ""}}, f("y", 52, 3, 3),
 		{Path: "usb", Kind: fsmodel.Char, Perm: 0664, Mtime: T + 4, Major: 189, Minor: 260}, {Path: "loop", Kind: fsmodel.Block, Perm: 0660, Mtime: T + 5, Major: 7, Minor: 300}})
+	// modification times at the edges: exactly on a second (file systems and archives with second granularity), and
+	// before 1970 with a sub-second part
+	trees = append(trees, fsmodel.Tree{{Path: "whole", Kind: fsmodel.File, Perm: 0644, Mtime: T, Data: fsmodel.Content(61, 9)},
+		{Path: "old", Kind: fsmodel.File, Perm: 0644, Mtime: -3*1e9 + 250000000, Data: fsmodel.Content(62, 4)},
+		{Path: "olddir", Kind: fsmodel.Dir, Perm: 0755, Mtime: -86400*1e9 - 1}, {Path: "olddir/whole2", Kind: fsmodel.File, Perm: 0600, Mtime: T - 1e9, Data: fsmodel.Content(63, 5)},
+		{Path: "oldlink", Kind: fsmodel.Symlink, Perm: 0777, Mtime: -1, Link: "old"}})
 	trees[3][0].HL = 1
 	for i := range trees {
 		trees[i].Sort()
